@@ -849,17 +849,30 @@ func callBuiltin(caller *frame, fn *ssa.Builtin, args []value) value {
 		if len(args) == 1 {
 			return args[0]
 		}
+		base := args[0].([]value)
+		var add []value
 		if isStringV(args[1]) {
-			return append(args[0].([]value), strBytes(args[1])...)
+			add = strBytes(args[1])
+		} else {
+			add = args[1].([]value)
 		}
-		return append(args[0].([]value), args[1].([]value)...)
+		if len(base)+len(add) <= cap(base) {
+			// appends in place: writes cells of the existing backing array
+			caller.i.px.onBulkStore(caller, base[len(base):len(base)+len(add)])
+		}
+		return append(base, add...)
 
 	case "copy":
 		src := args[1]
+		dst := args[0].([]value)
+		var n int
 		if isStringV(src) {
-			return copy(args[0].([]value), strBytes(src))
+			n = copy(dst, strBytes(src))
+		} else {
+			n = copy(dst, src.([]value))
 		}
-		return copy(args[0].([]value), src.([]value))
+		caller.i.px.onBulkStore(caller, dst[:n])
+		return n
 
 	case "close":
 		chanClose(caller, args[0])
